@@ -146,7 +146,11 @@ fn check_cfg(ctx: &Ctx, cfg: &Cfg, dp: usize, stretch_len: usize) -> JobOut {
             // flat from the very first input at extreme magnitudes (with an active prefix of ordinary size the
             // squares of the jump overflow f64, which is not a flat-window matter)
             let extreme: Vec<f64> = if pre.is_empty() { vec![1e200, 1e-200, 1e300] } else { vec![] };
-            for &level in levels.iter().chain(extreme.iter()) {
+            for (&level, after_reset) in levels.iter().chain(extreme.iter()).flat_map(|l| [(l, false), (l, true)]) {
+                // the same stretch after prefix + reset(): the instance is re-used, t and M restart
+                if after_reset && pre.is_empty() {
+                    continue;
+                }
                 // PPO divides by its slow average: a stream that changes sign drives that average through 0,
                 // which is a singularity of the formula, not a flat-window matter (C03 restricts PPO to positive prices)
                 if level < 0.0 && cfg.kind == Kind::Ppo {
@@ -157,8 +161,12 @@ fn check_cfg(ctx: &Ctx, cfg: &Cfg, dp: usize, stretch_len: usize) -> JobOut {
                     return out;
                 }
                 let mut ops: Vec<Op> = pre.iter().enumerate().map(|(i, &a)| prefix_op(cfg, pv[a as usize], st, i)).collect();
+                if after_reset {
+                    ops.push(Op::Reset);
+                }
                 let plen = ops.len();
-                let mut m = ops.iter().map(|o| o.maxmag()).fold(0.0, f64::max);
+                let tbase = if after_reset { 0 } else { plen };
+                let mut m = if after_reset { 0.0 } else { ops.iter().map(|o| o.maxmag()).fold(0.0, f64::max) };
                 out.stats.traces += 1;
                 out.stats.states += 1;
                 let r = std::panic::catch_unwind(std::panic::AssertUnwindSafe(|| {
@@ -185,7 +193,7 @@ fn check_cfg(ctx: &Ctx, cfg: &Cfg, dp: usize, stretch_len: usize) -> JobOut {
                 out.stats.transitions += (plen + stretch_len) as u64;
                 for j in 0..stretch_len {
                     m = m.max(sops[j].maxmag());
-                    let t = plen + j + 1;
+                    let t = tbase + j + 1;
                     // the reference window is degenerate once min(t, w) trailing inputs are flat
                     let need = w.min(t);
                     if j + 1 < need {
@@ -203,7 +211,7 @@ fn check_cfg(ctx: &Ctx, cfg: &Cfg, dp: usize, stretch_len: usize) -> JobOut {
                             Violation::new(PROP, cfg, &ops, &class)
                                 .obs(out2s(&res[j]))
                                 .exp(exp)
-                                .det(format!("{:?} stretch at level {} : step {} of the stretch after a {}-input active prefix (window degenerate)", st, level, j + 1, plen)),
+                                .det(format!("{:?} stretch at level {} : step {} of the stretch after a {}-op active prefix{} (window degenerate)", st, level, j + 1, plen, if after_reset { " ending in reset()" } else { "" })),
                         );
                         return out;
                     }
@@ -320,7 +328,7 @@ pub fn run(ctx: &Ctx) -> CheckResult {
     res.extra.insert("configurations".into(), json!(jobs.len()));
     res.rule = "case = (configuration, active prefix, stretch kind, flat level, step of the stretch); the real output at every step whose reference window is degenerate (min(t,w) trailing inputs flat / zero-flow) must be finite, inside the documented range, and equal the documented neutral value where one is defined; non-trivial = non-empty active prefix".into();
     res.bounds = format!(
-        "all 22 indicators, periods 1..8; every active prefix over {{2, 0.3, 1e6, 7.7, 1e9}} up to depth {} (exponential-memory kinds at periods 1..3: {}), levels {{1, 0.1, 0.7, 3.3, 1e6, -1, -3.3}} (and 1e200, 1e-200, 1e300 for streams flat from the start), stretch kinds scalar / one-price bar / same bar (CCI, MFI) / zero volume (MFI, OBV), every stretch length 1..{} ({} for exponential-memory kinds{}); level sweep for periods 1..3: all two-decimal prices 0.01..20.00 and 2000 log-uniform levels in [1e-3, 1e6]",
+        "all 22 indicators, periods 1..8; every active prefix over {{2, 0.3, 1e6, 7.7, 1e9}} up to depth {}, each also followed by reset() (exponential-memory kinds at periods 1..3: {}), levels {{1, 0.1, 0.7, 3.3, 1e6, -1, -3.3}} (and 1e200, 1e-200, 1e300 for streams flat from the start), stretch kinds scalar / one-price bar / same bar (CCI, MFI) / zero volume (MFI, OBV), every stretch length 1..{} ({} for exponential-memory kinds{}); level sweep for periods 1..3: all two-decimal prices 0.01..20.00 and 2000 log-uniform levels in [1e-3, 1e6]",
         4,
         3,
         if th { 600 } else { 64 },
